@@ -194,11 +194,16 @@ def _inline_unknown_helpers(tree: ast.Module) -> int:
             tail = [ast.copy_location(ast.Return(value=ast.Constant(value=None)), st)]
         # constant arguments are propagated into the inlined statements (so that e.g. setattr(obj, <name>, v) becomes obj.<name> = v)
         consts = {b_.targets[0].id: b_.value for b_ in binds if isinstance(b_.value, ast.Constant)}
+        # a plain name passed as argument stands for itself in the inlined statements, unless the helper binds that name anywhere
+        # (also as a comprehension variable: capture)
+        stored_in_body = {n_.id for s_ in body for n_ in ast.walk(s_) if isinstance(n_, ast.Name) and isinstance(n_.ctx, (ast.Store, ast.Del))}
+        consts.update({b_.targets[0].id: b_.value for b_ in binds if isinstance(b_.value, ast.Name) and b_.value.id not in stored_in_body})
         if consts:
             class Prop(ast.NodeTransformer):
                 def visit_Name(self, node):
                     if isinstance(node.ctx, ast.Load) and node.id in consts:
-                        return ast.copy_location(ast.Constant(value=consts[node.id].value), node)
+                        c_ = consts[node.id]
+                        return ast.copy_location(ast.Constant(value=c_.value) if isinstance(c_, ast.Constant) else ast.Name(id=c_.id, ctx=ast.Load()), node)
                     return node
             rebound = {n_.id for s_ in body + tail for n_ in ast.walk(s_) if isinstance(n_, ast.Name) and isinstance(n_.ctx, ast.Store)}
             consts = {k_: v_ for k_, v_ in consts.items() if k_ not in rebound}
@@ -590,6 +595,7 @@ class Repo:
         self.pkg = self.root / "pymablock"
         self.trees: dict[str, ast.Module] = {}
         self.sources: dict[str, str] = {}
+        self.renamed: list = []  # (module, unit, found local, reference spelling)
         if not self.pkg.is_dir():
             raise AnalysisError("loader", f"package directory {self.pkg} not found")
         for name in MODULES:
@@ -602,6 +608,9 @@ class Repo:
                 tree = ast.parse(src, filename=str(path))
             except SyntaxError as e:  # a variant that does not compile is not our business
                 raise AnalysisError("loader", f"{path} does not parse: {e}")
+            # locals that were merely renamed are read in the spelling the rules know (a sound alpha-renaming, see sv/alpha.py)
+            from . import alpha
+            self.renamed.extend((name, *r_) for r_ in alpha.rename_back(tree, name))
             for node in ast.walk(tree):
                 for child in ast.iter_child_nodes(node):
                     child._parent = node  # type: ignore[attr-defined]
